@@ -21,9 +21,9 @@ LEVEL = "model_checking"
 MODULE = "GpuRequest"
 TRACE = "GpuRequestTrace"
 
-FRAC = ["absent", "empty", "dec", "dec3", "subcenti", "one", "gt1", "zero", "neg", "exp", "hex", "plus", "ws", "nan", "inf", "ovf", "udf", "u64", "nonnum"]
+FRAC = ["absent", "empty", "dec", "dec3", "subcenti", "one", "gt1", "zero", "neg", "exp", "hex", "plus", "ws", "nan", "inf", "ovf", "udf", "u64", "nonnum", "cent"]
 MEM = ["absent", "empty", "pos", "lead0", "zero", "neg", "exp", "hex", "plus", "ws", "nan", "ovf", "u64", "max64", "nonnum", "dec"]
-DEV = ["absent", "empty", "one", "two", "zero", "neg", "exp", "hex", "plus", "ws", "nan", "ovf", "u64", "max64", "big32", "huge", "nonnum", "dec"]
+DEV = ["absent", "empty", "one", "two", "three", "zero", "neg", "exp", "hex", "plus", "ws", "nan", "ovf", "u64", "max64", "big32", "huge", "nonnum", "dec"]
 CTR = ["none", "one", "two", "init"]
 FCN = ["absent", "main", "init", "unknown"]
 
@@ -190,13 +190,13 @@ def run(ctx):
     binary = vlib.go_build("gpureq")
     ctx.cov["rule"] = ("pod = class combination of (gpu-fraction x gpu-memory x num-devices) with at most K annotations outside "
                        "{absent, plain valid} (quick K=1, thorough K=2) x whole-GPU container (none,1,2,init) x fraction-container-name "
-                       "(absent,main,init,unknown) x sharing enabled; each concretised to 2 (quick) / 3 (thorough) strings, thorough adds "
+                       "(absent,main,init,unknown) x sharing enabled, plus EVERY two-decimal gpu-fraction 0.01..0.99 x num-devices (absent,1,2,3); each concretised to 2 (quick) / 3 (thorough) strings, thorough adds "
                        "seeded random string mutations around class boundaries; non-trivial = the pod carries some GPU request; "
                        "distinct by (strings, ctr, fcn, sharing)")
     ctx.assumptions += [
         "the denoted quantity of a string is computed by the harness's own recogniser (decimal / exponent / hex-float literal with optional sign -> exact rational; anything else denotes nothing); strconv is not used for it",
         "class representatives, not all strings: the for-all-strings quantifier is sampled (plus seeded mutations in the thorough tier)",
-        "materialised GPU_PORTION has two decimals by design; it is compared with the denoted portion within half a centi-GPU and must be positive; the scheduler's accounted GPUs() likewise within half a centi-GPU per device; the raw portion, memory and device count must be exactly the denoted ones",
+        "materialised GPU_PORTION has two decimals by design; it is compared with the denoted portion within half a centi-GPU and must be positive; the scheduler's accounted GPUs()/GetGpusQuota() must be, per device and in total, the denoted fraction rounded to 1/100 GPU (half up on the exact decimal value; a value exactly on a half may go either way); the raw portion, memory and device count must be exactly the denoted ones",
         "binder stage: the admitted pods go through real scheduling cycles on a cluster with one 8-GPU / 10000 MiB node per pod; the BindRequest created by the real scheduler is given to the real binder gpusharing plugin on a controller-runtime fake client; reservation pods / the binding sub-resource are C11/C17's subject",
         "the validator variant (as written / repaired) described by the model's class tables is selected from three probe observations of the same trace; the D_ monitors then check the selected tables on every class combination",
     ]
@@ -232,8 +232,8 @@ def replay(ctx, obj):
               dict(frac="absent", mem="u64", dev="absent", ctr="none", fcn="absent", sharing=1, sig="gpu-memory=u64"),
               dict(frac="subcenti", mem="absent", dev="absent", ctr="none", fcn="absent", sharing=1, sig="gpu-fraction=subcenti")]
     with open(scen, "w") as f:
-        for s in probes + [{k: sc[k] for k in ("frac", "mem", "dev", "ctr", "fcn", "sharing", "sig")}]:
-            f.write(json.dumps(s) + "\n")
+        for s in probes + [{k: sc.get(k, 0) for k in ("frac", "mem", "dev", "ctr", "fcn", "sharing", "cv", "sig")}]:
+            f.write(json.dumps(dict(s, cv=s.get("cv", 0))) + "\n")
     trace = os.path.join(ctx.scratch, "trace.ndjson")
     vlib.run_harness(binary, ["-in", scen, "-out", trace, "-variants", "3"])
     validate(ctx, trace)
